@@ -650,11 +650,15 @@ impl ASN1Type {
                     let arg = args.get(index).ok_or_else(|| grammar_error!(LinkerError, "Did not find an argument for parameter {dummy_reference} of {identifier}"))?;
                     match (arg, param_governor) {
                         (Parameter::ValueParameter(v), ParameterGovernor::TypeOrClass(gov)) => {
+                            // The argument is written in the scope of the instance: a value reference in it is
+                            // resolved there, before a formal parameter of the same name shadows the definition
+                            let mut v = v.clone();
+                            v.link_elsewhere_declared(identifier, tlds)?;
                             impl_tlds.insert(
                                 dummy_reference.clone(),
                                 ToplevelDefinition::Value(ToplevelValueDefinition::from((
                                     dummy_reference.as_str(),
-                                    v.clone(),
+                                    v,
                                     gov.clone(),
                                 ))),
                             );
